@@ -12,9 +12,14 @@ UNHASHABLE = [[1], [2, 3], {'q': 1}]
 class Obj(object):
     """a live object with the default repr (`<suite_keys.Obj object at 0x...>`), identity equality and its own state"""
     def __init__(self, n): self.n = n
+    def describe(self): return self.n
 
 
 OBJS = [Obj(1), Obj(2)]
+# the generated functions are all called `target`: an argument may well have an attribute of that name which is no method of its
+# own (plain data; a method borrowed from another object) - it is then NOT an instance the function is bound to
+OBJS[0].target = 2.5
+OBJS[1].target = OBJS[0].describe
 OBJ_MARK = {id(o): '<OBJ%d>' % i for i, o in enumerate(OBJS)}
 OBJ_BY_MARK = {'<OBJ%d>' % i: o for i, o in enumerate(OBJS)}
 CALL_POOL = POOL + OBJS          # values for call arguments (defaults stay JSON-representable)
@@ -59,6 +64,12 @@ def gen_program(r, idx):
     if r.random() < 0.06:        # the fully variadic signature `(*args, **kw)`: nothing is named, the key is tail + keyword items only
         npos, ndef, varargs, nkw, kwdef, varkw = 0, 0, True, 0, [], True
         noself = r.random() < 0.5    # methods / __call__ written `def m(*args, **kw)`: the instance arrives inside *args
+    if idx % 40 == 7:
+        # stratum: a method / __call__ that names NO positional parameter but has keyword-only ones, `def m(*args, k=.., **kw)`:
+        # the instance arrives inside *args, and the first name the code object knows is a keyword-only parameter
+        npos, ndef, varargs, noself = 0, 0, True, True
+        nkw = 1 + (idx // 40) % 2; kwdef = [(idx // 80) % 2 == 0, True][:nkw]; varkw = (idx // 160) % 2 == 0
+        kind = ['method', 'callable', 'partial_method', 'partial_callable'][(idx // 40) % 4]
     defaults = [r.choice(POOL) for _ in range(ndef)]
     kwdefaults = [r.choice(POOL) for _ in range(nkw)]
     return dict(noself=noself, npos=npos, ndef=ndef, varargs=varargs, nkw=nkw, kwdef=kwdef, varkw=varkw, kind=kind,
